@@ -211,6 +211,25 @@ def r04_4(run):
     ok = bool(apps) and all(cfg.dominates(nc, cfg.stmt_node_containing(a)) and norm(a.args[0]) == assigned_name(cfg.stmt[nc]) for a in apps)
     run.ob("R04.4", loc(fi, apps[0] if apps else fi.node), fi.short, "a view is registered among its parent's view children", ok,
            "parent_var._view_children.append(tensor_out) after construction" if ok else "views are not registered: in-place updates of the parent do not reach them")
+    # the loop variable that names the matched parent must not survive an unsuccessful search
+    loops = [n for n, s in cfg.stmt.items() if isinstance(s, ast.For) and "parent_var" in {x.id for x in ast.walk(s.target) if isinstance(x, ast.Name)}]
+    resets = {n for n, s in cfg.stmt.items() if isinstance(s, ast.Assign) and assigned_name(s) == "parent_var"
+              and isinstance(s.value, ast.Constant) and s.value.value is None}
+    users = {cfg.stmt_node_containing(a) for a in apps} | {n for n, s in cfg.stmt.items() if cfg.label[n] == "If" and "parent_var" in norm(s)
+                                                          and not any(n in cfg.reachable_from(lp) and lp in cfg.reachable_from(n) for lp in loops)}
+    users.discard(None)
+    for lp in loops:
+        ok, wit = True, None
+        for succ in cfg.succ_by_kind(lp, "exhausted"):
+            for u in sorted(users):
+                if u in (cfg.reachable_from(succ) | {succ}):
+                    w = cfg.all_paths_hit(succ, resets, exits=(u,))
+                    if w is not None:
+                        ok, wit = False, w
+        run.ob("R04.4", loc(fi, cfg.stmt[lp]), fi.short, "when no operand matches, the candidate-parent variable is reset before it is used", ok,
+               "every path from the exhausted search loop to a use of `parent_var` passes `parent_var = None` (for-else)" if ok else
+               "the loop variable leaks when the search finds no parent: a copy whose NumPy result merely has a temporary .base is registered "
+               "as a view child of the last operand", path=cfg.path_text(wit) if wit else None)
     # replay information recorded for views
     rec = [s for s in own_nodes(fi.node) if isinstance(s, ast.Assign) and norm(s.targets[0]) in ("f.replay_args", "f.replay_kwargs", "f.replay_force_constant")]
     tests = [n for n, s in cfg.stmt.items() if cfg.label[n] == "If" and norm(s) == "base is not None"]
